@@ -31,6 +31,7 @@ const (
 	SchedPCT           // switch exactly at the step indices in Points
 	SchedStore         // switch only at store-split sites and the yield after one
 	SchedReplay        // follow Decisions exactly
+	SchedSync          // switch only at synchronisation operations and stores to package-level / captured variables
 )
 
 // Map-order modes (all are legal Go behaviours).
@@ -264,6 +265,7 @@ const (
 	kStmt  = 0
 	kStore = 1
 	kLoop  = 2
+	kSync  = 3
 )
 
 // Yield is inserted before every statement of the instrumented code.
@@ -285,6 +287,17 @@ func YieldW(site uint32) {
 		return
 	}
 	s.step(site, kStore)
+}
+
+// YieldG marks a synchronisation-relevant point: a sync / sync/atomic operation, or
+// the store half of a read-modify-write on a package-level or captured variable.
+//
+//go:norace
+func YieldG(site uint32) {
+	if !s.active {
+		return
+	}
+	s.step(site, kSync)
 }
 
 //go:norace
@@ -397,7 +410,14 @@ func (s *sim) choose(kind uint8) int {
 		}
 		return s.cur
 	case SchedStore:
-		if kind == kStore || s.lastKind == kStore {
+		if kind == kStore || kind == kSync || s.lastKind == kStore || s.lastKind == kSync {
+			if s.float() < 0.5 {
+				return s.pickOther()
+			}
+		}
+		return s.cur
+	case SchedSync:
+		if kind == kSync || s.lastKind == kSync {
 			if s.float() < 0.5 {
 				return s.pickOther()
 			}
